@@ -245,7 +245,7 @@ m('c07_shared_dict_buffer', 'C07', 'datastore.py',
   "                c.execute(self.sql_individuals_upsert, [individual.id, json.dumps(individual.to_dict())])\n                conn.commit()\n            except sqlite3.OperationalError as e:",
   "                self._row = [individual.id, json.dumps(individual.to_dict())]\n                c.execute(self.sql_individuals_upsert, self._row)\n                conn.commit()\n            except sqlite3.OperationalError as e:")
 
-# ---------------------------------------------------------------- regressions of the six repaired defects (a fixed entry of
+# ---------------------------------------------------------------- regressions of the repaired defects (a fixed entry of
 # known_findings.json suppresses nothing: the violation must be reported again if the defect ever returns)
 m('f1_regression_eq_last_coordinate_only', 'C20', 'individual.py',
   "            d = abs(self.vector[i] - other.vector[i])\n            diff = d if i == 0 else max(diff, d)",
@@ -265,3 +265,7 @@ m('f6_regression_costs_not_a_list_c14', 'C14', 'job.py',
 m('f6_regression_costs_not_a_list_c17', 'C17', 'job.py',
   "                individual.costs = list(costs)  # a numpy array would break later list operations (append, vector + costs)\n",
   "                individual.costs = costs\n")
+m('f7_regression_state_word_after_readback_c05', 'C05', 'individual.py',
+  "        individual.state = Individual.from_string(dictionary['state'])\n", "        individual.state = dictionary['state']\n")
+m('f7_regression_state_word_after_readback_c07', 'C07', 'individual.py',
+  "        individual.state = Individual.from_string(dictionary['state'])\n", "        individual.state = dictionary['state']\n")
